@@ -304,3 +304,14 @@ fn connect_graph<T: FloatT>(L: &mut CscMatrix<T>) {
         }
     }
 }
+
+// read-only verification accessor (compiled only with --cfg clarabel_verif)
+#[cfg(clarabel_verif)]
+impl<T> ChordalInfo<T>
+where
+    T: FloatT,
+{
+    pub(crate) fn verif_find_graph(nz_mask: &[bool]) -> (CscMatrix<f64>, Vec<usize>) {
+        find_graph(nz_mask)
+    }
+}
